@@ -88,6 +88,14 @@ impl Known {
     pub fn matches(&self, v: &Violation) -> Option<&(String, String, String)> {
         self.entries.iter().find(|(p, s, _)| p == v.prop && *s == v.sig)
     }
+    /// Maintenance aid (never used by registered commands): VERIF_TARGET_SIG=<substring> makes the
+    /// run hunt for exactly that signature, so that a replay file for a listed finding can be
+    /// (re)generated under findings/.
+    pub fn retarget(&mut self) {
+        if let Ok(t) = std::env::var("VERIF_TARGET_SIG") {
+            self.entries.retain(|(_, s, _)| !s.contains(&t));
+        }
+    }
 }
 
 fn watchdog_thread(stop: &'static AtomicBool, id: &'static str) {
@@ -120,7 +128,8 @@ static STOP_WD: AtomicBool = AtomicBool::new(false);
 pub fn run_check(def: &'static CheckDef, thorough: bool, seed: u64, budget_s: f64, max_runs: u64, threads: usize) -> i32 {
     let t0 = WallInstant::now();
     install_panic_hook();
-    let known = load_known();
+    let mut known = load_known();
+    known.retarget();
     STOP_WD.store(false, Ordering::Relaxed);
     watchdog_thread(&STOP_WD, def.id);
     let next = AtomicU64::new(0);
